@@ -14,6 +14,8 @@ func init() {
 			{Name: "root-merge-interleavings", Pkg: "executor", Files: []string{"executor/c12.go"}, Entry: "VerifRootMergeOrder", Mode: "all", Race: true,
 				Quick: map[string]int{"extra": 1}, Thorough: map[string]int{"extra": 1},
 				Reach: []string{"root answers merged"}, Functions: []string{"executor.ParallelExecutor.Execute", "executor.(*DepthExecutorManager).Execute", "executor.(*DepthExecutorManager).merge", "executor.(*DepthExecutor).Execute", "common.AsyncMapReduce[...]"}},
+			{Name: "children-order-interleavings", Pkg: "executor", Files: []string{"executor/c12.go"}, Entry: "VerifChildrenOrder", Mode: "all", Race: true,
+				Reach: []string{"children stitched", "children failed"}, Functions: []string{"executor.ParallelExecutor.Execute", "executor.(*DepthExecutorManager).Execute", "executor.(*DepthExecutorManager).merge", "executor.(*DepthExecutor).Execute", "executor.(*DepthExecutor).executeRequests", "executor.(*DepthExecutor).getVariables", "executor.(*DepthExecutor).parseRespones", "executor.FindInsertionPoints"}},
 			{Name: "repeat-mixed-introspection", Pkg: ".", Files: []string{"root/fed.go", "root/c01.go", "root/c14g.go"}, Entry: "VerifCacheGateway", Mode: "seq",
 				Quick: map[string]int{"hmax": 2, "mixedpool": 1, "maporder": 1}, Thorough: map[string]int{"hmax": 3, "mixedpool": 1, "maporder": 2},
 				Reach: []string{"history through the gateway"}, Functions: []string{"(*Gateway).queryHandler", "(*Gateway).parseIntrospectionQuery", "planner.(*CachedPlanner).Plan", "planner.routeSelectionSet"}},
@@ -23,6 +25,7 @@ func init() {
 		},
 		Assume: []string{
 			"root-merge-interleavings: the real executor on a plan of 2-3 root steps that answer the same response key (a node lookup sent to every service: the owner answers an object, the others null), under EVERY interleaving",
+			"children-order-interleavings: the real executor on a plan of two root steps (two services) whose objects are both completed by a third service; ids symbolic in {a, b, empty}; EVERY interleaving; outcomes (data, or the error text) of all completed paths with the same ids are compared by the explorer (verifOutcome)",
 			"repeat-mixed-introspection: operations that select introspection fields next to ordinary ones, repeated on one gateway with the caching planner, under symbolic map orders (the C14 kernel of the same name)",
 			"repeat-with-cache: every ordered pair (B, A) of the README scenario operations: B, A, B sent to one gateway with the caching planner; both answers to B are compared",
 			"map iteration order is a symbolic choice for up to `maporder` range loops of the code under test per run (each such loop runs in insertion order, reversed, or rotated by one), insertion order for the others",
